@@ -27,6 +27,19 @@ func TestProbe(t *testing.T) {
 	} else if err := json.Unmarshal(b, &c); err != nil {
 		t.Fatal(err)
 	}
+	if pre := os.Getenv("C18_PRELOAD"); pre != "" {
+		// load (and query) another case first: state left behind by earlier databases of the same server
+		pb, err := os.ReadFile(pre)
+		if err != nil {
+			t.Fatal(err)
+		}
+		var pc CaseJ
+		if err := json.Unmarshal(pb, &pc); err != nil {
+			t.Fatal(err)
+		}
+		vs := runCase(&pc, func(int, string) {}, true)
+		fmt.Printf("== preload: %d violations\n", len(vs))
+	}
 	l, msg := load(&c.Data)
 	if msg != "" {
 		t.Fatal(msg)
